@@ -131,6 +131,7 @@ type Controller struct {
 	Switches  int
 	locals    map[string]any
 	timeFires int
+	marked    bool
 }
 
 var epoch = time.Unix(1_000_000_000, 0)
@@ -523,6 +524,13 @@ func Obs(format string, a ...any) {
 	}
 }
 
+// Mark flags the current execution as non-trivial by the harness's own rule.
+func Mark() {
+	if c := active.Load(); c != nil {
+		c.marked = true
+	}
+}
+
 // Local returns a per-execution value store for harness collaborators.
 func Local(key string, mk func() any) any {
 	c := active.Load()
@@ -797,6 +805,7 @@ type Result struct {
 	Threads  int
 	Leaked   bool
 	VTime    int64
+	Marked   bool
 }
 
 // RunOnce executes body as thread 0 under a fresh controller following prefix.
@@ -827,11 +836,22 @@ func RunOnce(cfg Config, prefix []uint16, expect []Point, body func()) *Result {
 		leaked = true
 	}
 	active.Store(nil)
-	return &Result{Trace: c.trace, Failure: c.failure, Obs: c.obs, Steps: c.steps, Blocked: c.Blocked, Switches: c.Switches, Threads: len(c.threads), Leaked: leaked, VTime: c.now}
+	return &Result{Trace: c.trace, Failure: c.failure, Obs: c.obs, Steps: c.steps, Blocked: c.Blocked, Switches: c.Switches, Threads: len(c.threads), Leaked: leaked, VTime: c.now, Marked: c.marked}
 }
 
 // Aborting reports whether the current execution is being torn down (shim releases become no-ops).
 func Aborting() bool {
 	c := active.Load()
 	return c != nil && (c.aborting || c.ended)
+}
+
+// ChooseFree is a data choice point whose alternatives cost no deviation: the
+// explorer enumerates all of them regardless of the bound (used to enumerate
+// operation sequences and inputs inside an execution).
+func ChooseFree(kind string, n int) int {
+	c := active.Load()
+	if c == nil || c.aborting || c.ended || n <= 1 {
+		return 0
+	}
+	return c.choice(kind, n, costAllFree)
 }
